@@ -219,7 +219,7 @@ def run_check(args):
         os.makedirs(os.path.join(VERIF, "replays"), exist_ok=True)
         replay_path = os.path.join(VERIF, "replays", "%s-%d-%d.json" % (prop, args.seed, r["idx"]))
         rep = {
-            "property": prop, "clause": v["clause"], "seed": args.seed, "run": r["idx"], "hash_seed": 0,
+            "property": prop, "clause": v["clause"], "seed": args.seed, "run": r["idx"], "hash_seed": int((r.get("cfg") or {}).get("hash_class", 0)),
             "cfg": r["cfg"], "ops": mops, "step": mv[0]["step"] if mv else v["step"],
             "detail": mv[0]["detail"] if mv else v["detail"], "original_ops": len(ops), "minimise_executions": used,
             "digest": rr.get("digest"),
@@ -357,9 +357,22 @@ def write_evidence(args, prop, tier, results, viol_runs, known_hits, other, harn
     }
     os.makedirs(os.path.join(VERIF, "evidence"), exist_ok=True)
     with open(os.path.join(VERIF, "evidence", prop + ".json"), "w") as f:
-        json.dump(ev, f, indent=1, default=str)
+        json.dump(_finite(ev), f, indent=1, default=str, allow_nan=False)
     if stuck:
         print("warning: rare-condition probes stuck at zero:", stuck)
+
+
+def _finite(x):
+    """Strict-JSON safe copy: non-finite floats become strings."""
+    import math
+
+    if isinstance(x, float) and not math.isfinite(x):
+        return repr(x)
+    if isinstance(x, dict):
+        return {str(k): _finite(v) for k, v in x.items()}
+    if isinstance(x, (list, tuple)):
+        return [_finite(v) for v in x]
+    return x
 
 
 def _compact_ops(ops):
